@@ -401,7 +401,7 @@ func keys(m map[string]bool) []string {
 
 func Run(o *core.Options) int {
 	r := core.NewReport(o, "exploration",
-		"every interleaving within the preemption bound (scheduling choice at every sync/atomic/channel/select operation of the instrumented pipeline, worker, track and container packages; which ready select case fires is a choice too) of the whole streaming ListObjects pipeline over small cyclic models; oracle per execution: terminates (no deadlock/livelock/panic), Close returns and no worker thread is left, output set equals the reference set, no duplicates; with a cancel thread or early close: terminates and output is sound; non-trivial = distinct (outcome, length class) pairs")
+		"first every schedule that departs from the default schedule in at most d choices (deviation bounds 1, 2 required, 3 best effort; one unusual event anywhere - e.g. the cancelling thread firing between any two operations of a worker - whatever it costs in preemptions), then every interleaving within the preemption bound (scheduling choice at every sync/atomic/channel/select operation of the instrumented pipeline, worker, track and container packages; which ready select case fires is a choice too) of the whole streaming ListObjects pipeline over small cyclic models; oracle per execution: terminates (no deadlock/livelock/panic), Close returns and no worker thread is left, output set equals the reference set, no duplicates; with a cancel thread or early close: terminates and output is sound; non-trivial = distinct (outcome, length class) pairs")
 	r.Assume("memory datastore, typesystem, weighted graph and otel are uninstrumented (their locks are never held across a scheduling point)",
 		"scheduling points at every sync, sync/atomic and channel operation of internal/containers, internal/listobjects/pipeline and its internal packages (tools/vgen rewrite of the current source)",
 		"models: recursive userset, two-relation tuple cycle, recursive TTU, cycle plus union/intersection/exclusion with a non-cyclic operand; <=4 tuples; chunk 1-2, buffer 1-2, procs 1-2")
@@ -409,9 +409,10 @@ func Run(o *core.Options) int {
 	for _, p := range baseScenarios(o.Thorough()) {
 		scs = append(scs, scenario(p))
 	}
-	b := e1.Budget{Bounds: []int{0, 1, 2}, Required: 1, Prune: true, Elide: os.Getenv("VERIF_NO_ELIDE") == "", PerScen: 45 * time.Second}
+	b := e1.Budget{Bounds: []int{0, 1, 2}, Required: 1, Prune: true, Elide: os.Getenv("VERIF_NO_ELIDE") == "", PerScen: 45 * time.Second,
+		DevBounds: []int{1, 2, 3}, DevRequired: 2, DevPerScen: 30 * time.Second}
 	if o.Thorough() {
-		b = e1.Budget{Bounds: []int{0, 1, 2, 3}, Required: 2, Prune: true, Elide: true, PerScen: 12 * time.Minute}
+		b = e1.Budget{Bounds: []int{0, 1, 2, 3}, Required: 2, Prune: true, Elide: true, PerScen: 12 * time.Minute, DevBounds: []int{1, 2, 3, 4}, DevRequired: 3, DevPerScen: 4 * time.Minute}
 	}
 	if o.Replay != "" {
 		var v e1.Viol
